@@ -1,5 +1,5 @@
 (** * Property C09 (fourth part) — [cofactor] and [quantify] with keys given
-      as LEVELS under dynamic reordering, after dd commit a1c66f6.
+      as LEVELS under dynamic reordering, after dd commit 827d7f0.
 
       Before that commit the two public methods were themselves wrapped by
       the retry decorator: the second attempt (after sifting) read the same
@@ -74,7 +74,7 @@ Print Assumptions C09d_cofactor_levels_rejected.
 (** ** 2. Dynamic reordering enabled.  The first disjunct is the model's
     iteration-order oracle error; it disappears with an empty tape (part 3). *)
 Theorem C09d_quantify_levels_dyn s L u qvars fa r s' :
-  Inv s → Counts s L → rctx s = false →
+  Inv s → Counts s L → rctx s = false → max_nodes s = None →
   valid s u → heldn L (absn u) →
   Forall (fun l => is_Some (lvl2var s !! l)) qvars →
   quantify u false qvars fa s = (r, s') →
@@ -92,7 +92,7 @@ Proof. exact (quantify_levels_dynamic s L u qvars fa r s'). Qed.
 Print Assumptions C09d_quantify_levels_dyn.
 
 Theorem C09d_cofactor_levels_dyn s L u values r s' :
-  Inv s → Counts s L → rctx s = false →
+  Inv s → Counts s L → rctx s = false → max_nodes s = None →
   valid s u → heldn L (absn u) →
   Forall (fun p => is_Some (lvl2var s !! p.1)) values →
   cofactor u false values s = (r, s') →
@@ -113,7 +113,7 @@ Print Assumptions C09d_cofactor_levels_dyn.
 
 (** ** 3. With an empty oracle tape (the literal code) the call RETURNS *)
 Theorem C09d_quantify_levels_notape s L u qvars fa r s' :
-  Inv s → Counts s L → rctx s = false → tape s = [] →
+  Inv s → Counts s L → rctx s = false → tape s = [] → max_nodes s = None →
   valid s u → heldn L (absn u) →
   Forall (fun l => is_Some (lvl2var s !! l)) qvars →
   quantify u false qvars fa s = (r, s') →
@@ -130,7 +130,7 @@ Proof. exact (quantify_levels_notape s L u qvars fa r s'). Qed.
 Print Assumptions C09d_quantify_levels_notape.
 
 Theorem C09d_cofactor_levels_notape s L u values r s' :
-  Inv s → Counts s L → rctx s = false → tape s = [] →
+  Inv s → Counts s L → rctx s = false → tape s = [] → max_nodes s = None →
   valid s u → heldn L (absn u) →
   Forall (fun p => is_Some (lvl2var s !! p.1)) values →
   cofactor u false values s = (r, s') →
